@@ -140,6 +140,15 @@ def run():
         add('UNE', s, rng.choice([64, 64, 0, 1, 2, 3, 5, len(s)]))
         for mtxt in jsongen.mutations(rng, s, 2):
             add('UNE', mtxt, rng.choice([64, 4, 1]))
+    # every \\uXXXX escape class (first / last code point of each UTF-8 length, and inside) as the LAST thing written, with 0..5 bytes
+    # of room and with earlier output in front: the guard bytes behind the buffer must stay intact, the reply a value or an error
+    for cp in (0x00, 0x41, 0x7f, 0x80, 0xe9, 0x7ff, 0x800, 0x801, 0x928, 0xfff, 0x1000, 0x2020, 0xd7ff, 0xe000, 0xffff):
+        esc = ('\\u%04x' % cp).encode()
+        esc = rng.choice([esc, esc.upper().replace(b'\\U', b'\\u')])
+        for pre_ in (b'', b'a', b'abc'):
+            for room in range(0, 6):
+                add('UNE', pre_ + esc + b'"', len(pre_) + room)
+                add('TGJ', b'[["' + pre_ + esc + b'"]]', 4 + 2 + 2 + 2 + len(pre_) + room)
     for raw in (b'\\', b'\\u', b'\\u12', b'\\ud800"', b'\\udfff"', b'\\u0000"', b'\xc3', b'\xe2\x82', b'\xf0\x9f\x98', b'\xf7\xbf\xbf\xbf"',
                 b'\xf8\x88\x80\x80\x80"', b'\x80"', b'\xbf\xbf"', b'\\\xc3\xa9"', b'\\\xc0\xa2"', b'\xc0\xa2"', b'a\x00b"', b'\t"', b'\x7f"'):
         for bl in (0, 1, 2, 3, 4, 16):
